@@ -204,7 +204,7 @@ def canary_traces(ck, items):
         vlib.write_ndjson(p, events + [{"k": "End"}])
         _, rej = ck.validate_segments("TlSem_Trace", "trace/TlSem_Trace.cfg", p, name="canary_" + name.split(":")[0].replace(" ", "_"))
         return len(rej) == 1 and rej[0]["line"] == want
-    res = vlib.parallel(one, items, n=5)
+    res = vlib.parallel(one, items, n=8)
     ck.states, ck.transitions, ck.traces_ok, ck.evaluations = st, tr, ok, evs
     for (name, _, _), good in zip(items, res):
         ck.canary(name, good)
@@ -318,6 +318,7 @@ def run(ck):
     cevs = vlib.read_ndjson(callp)
     ck.sample({"direction": "client call", "event": {k: v for k, v in cevs[1].items() if k != "schema"}})
 
+    refl_canaries = run_reflective(ck)
     # ---------------------------------------------------------------- canaries C->S
     # each canary is a two-line trace (the Reset of the event's segment + the corrupted event), so that a genuine
     # rejection elsewhere cannot disturb it
@@ -339,8 +340,137 @@ def run(ck):
                        ("unmarshal: unread tail misreported", c2, iu + 1),
                        ("unmarshal-input: first byte of the input changed, value kept", c3, iu + 1),
                        ("call: one byte of the captured request changed", c4, ic + 1),
-                       ("call-result: returned value replaced by an error", c5, ic + 1)])
-    return ck.finish(rule=RULE, distinct=ck.evaluations)
+                       ("call-result: returned value replaced by an error", c5, ic + 1)] + refl_canaries)
+    return ck.finish(rule=RULE + RULE_REFL, distinct=ck.evaluations)
+
+
+# ----------------------------------------------------------------------------------- phase "reflective"
+REFL_TL = os.path.join(vlib.HARNESS, "internal", "c10", "reflective.tl")
+RULE_REFL = (" Phase reflective: tl.Marshal / tl.Unmarshal on plain Go structs without MarshalTL/UnmarshalTL (mirror.go; asserted by reflection), i.e. "
+             "encodeBasicStruct/encodeSumType/decodeBasicStruct/decodeSumType/compareWithTag, for the fixed schema reflective.tl (record of every primitive, "
+             "vector of records, nested record, 3-constructor union with an empty alternative, union inside a record and inside a vector). S->C: TlRefl_Gen "
+             "(TLC) emits values with TlSem!Enc's bytes, byte strings of lengths 0/1/253/254/255/256/65536/65537, and adversarial inputs with TlSem!Dec's "
+             "verdict (unknown / byte-swapped / other alternative's constructor id, every truncation of short encodings, trailing bytes); the driver requires "
+             "Marshal = bytes, Unmarshal = value, and for arbitrary bytes a value exactly when Dec gives one (same value, same unread count), never a panic. "
+             "C->S: random values and mutated inputs recorded and judged by TlSem_Trace. Vacuity: every constructor of the union in both directions.")
+
+
+def ctor_names(v, acc):
+    if isinstance(v, dict):
+        if "_" in v:
+            acc.add(v["_"])
+        for x in v.values():
+            ctor_names(x, acc)
+    elif isinstance(v, list):
+        for x in v:
+            ctor_names(x, acc)
+    return acc
+
+
+def run_reflective(ck):
+    sys.path.insert(0, os.path.join(vlib.VERIF, "tools"))
+    import tl2json
+    ast = tl2json.parse(open(REFL_TL).read())
+    astp = os.path.join(ck.work, "reflective.json")
+    open(astp, "w").write(json.dumps(ast, separators=(",", ":")) + "\n")
+    union = sorted(d["ctor"] for d in ast["types"] if d["result"] == "r.Choice")
+    if len(ast["types"]) != 9 or len(union) != 3:
+        raise Infra("reflective.tl parsed to %d types, union of %d" % (len(ast["types"]), len(union)))
+    # ---- S->C
+    rounds = 300 if ck.thorough else 12
+    cfg = "CONSTANTS\n  Seed = %d\n  Rounds = %d\nSPECIFICATION Spec\nINVARIANT Emit\nCHECK_DEADLOCK FALSE\n" % (ck.seed, rounds)
+    cp_ = os.path.join(ck.work, "TlRefl_Gen.cfg")
+    open(cp_, "w").write(cfg)
+    res = ck.tlc_or_infra("TlRefl_Gen", os.path.relpath(cp_, vlib.SPEC), files={"schema.json": astp}, name="refl_gen", timeout=1500, heap_gb=3)
+    vecs = sorted(res.vecs(), key=lambda v: v["vec"])
+    if len(vecs) < 7 * rounds + 16 + 100:
+        raise Infra("TlRefl_Gen emitted only %d vectors" % len(vecs))
+    vp, rp = os.path.join(ck.work, "refl_vectors.ndjson"), os.path.join(ck.work, "refl_replay.ndjson")
+    vlib.write_ndjson(vp, vecs)
+    ck.run_vh(["replay", "C10", "-part", "reflective", "-in", vp, "-out", rp, astp])
+    results = vlib.read_ndjson(rp)
+    if results[-1].get("k") != "End" or results[-1]["events"] != len(vecs):
+        raise Infra("reflective replay did not finish")
+    byvec = {v["vec"]: v for v in vecs}
+    for r_ in results[:-1]:
+        if r_["match"]:
+            ck.traces_ok += 1
+            continue
+        v = byvec[r_["vec"]]
+        shape = v["ty"] if v["op"] == "Enc" else v["cls"]
+        for f in r_["fails"]:
+            ck.report("C10:reflective:%s:%s" % (f["stage"], shape),
+                      "reflective tl codec disagrees with the specification (%s, %s, type %s, class %s): %s; vector %s" % (
+                          f["stage"], f["sub"], v["ty"], v.get("cls"), json.dumps({k: f[k] for k in f if k in ("detail", "got_v", "got_hex")})[:600], json.dumps(v)[:900]),
+                      {"kind": "reflective-vector", "vector": v, "got": r_})
+    ck.evaluations += len(vecs)
+    classes = {}
+    for v in vecs:
+        classes[v["op"] + ":" + v.get("cls", "")] = classes.get(v["op"] + ":" + v.get("cls", ""), 0) + 1
+    seen_sc = ctor_names([v["v"] for v in vecs if v["op"] == "Enc"], set())
+    seen_sc_dec = ctor_names([v["v"] for v in vecs if v["op"] == "Dec" and v["ok"]], set())
+    # canary S->C: claim that refused bytes decode / that a value is refused
+    cv = copy.deepcopy(next(v for v in vecs if v["op"] == "Dec" and v["cls"] == "unknown-id"))
+    cv2 = copy.deepcopy(next(v for v in vecs if v["op"] == "Dec" and v["cls"] == "exact")); cv2["ok"] = False
+    cv["ok"], cv["v"], cv["rest"] = True, cv2["v"], 0
+    cvp, cvr = os.path.join(ck.work, "refl_canary_vec.ndjson"), os.path.join(ck.work, "refl_canary_out.ndjson")
+    vlib.write_ndjson(cvp, [cv, cv2])
+    ck.run_vh(["replay", "C10", "-part", "reflective", "-in", cvp, "-out", cvr, astp])
+    cr = vlib.read_ndjson(cvr)
+    ck.canary("reflective S->C: verdict of an unknown-id input and of an exact encoding inverted", not cr[0]["match"] and not cr[1]["match"])
+    # ---- C->S
+    shards = 7 if ck.thorough else 2
+    def drive(i):
+        tp = os.path.join(ck.work, "refl_trace_%02d.ndjson" % i)
+        ck.run_vh(["drive", "C10", "-part", "reflective", "-out", tp, "-tier", ck.tier, "-seed", ck.seed, "-shard", i, "-shards", shards, astp])
+        return tp
+    traces = vlib.parallel(drive, range(shards))
+    def val(tp):
+        return ck.validate_segments("TlSem_Trace", "trace/TlSem_Trace.cfg", tp, timeout=2400, heap_gb=4, name="refl_" + os.path.basename(tp).split(".")[0][-2:])
+    for tp, (res, rejected) in zip(traces, vlib.parallel(val, traces, n=7)):
+        if res.tuples("DOMAIN"):
+            raise Infra("reflective: the harness produced a value outside the type's domain (%s)" % tp)
+        for rj in rejected:
+            e = rj["event"]
+            shape = rj["segment"][0].get("note", "").split(":")[-1]
+            if e.get("why") in ("truncated", "truncated-every", "unknown-id", "swapped-id"):
+                shape += ":" + e["why"].replace("-every", "")
+            ck.report("C10:reflective:codec:%s" % shape, "reflective tl codec: recorded event is not what TlSem defines: segment at line %d accepted %d of %d; rejected %s" % (
+                rj["seg"], rj["accepted"], rj["length"], json.dumps(e)[:1500]), {"kind": "trace", "event": e, "reflective": True})
+    mar, unm, nev, whys = set(), set(), 0, {}
+    allev = []
+    for tp in traces:
+        for e in vlib.read_ndjson(tp):
+            if e.get("k") == "Panic":
+                ck.report("C10:reflective:panic:%s" % e.get("ty"), "reflective tl codec panicked: " + json.dumps(e)[:600], {"kind": "panic", "event": e})
+            if e.get("k") == "Marshal" and e["err"] == "":
+                ctor_names(e["v"], mar)
+            if e.get("k") == "Unmarshal":
+                whys[e.get("why", "")] = whys.get(e.get("why", ""), 0) + 1
+                if e["err"] == "":
+                    ctor_names(e["v"], unm)
+            allev.append(e)
+    # vacuity: every constructor of the union in both directions, S->C and C->S
+    for nm, have in (("S->C Enc vectors", seen_sc), ("S->C Dec vectors", seen_sc_dec), ("C->S Marshal events", mar), ("C->S Unmarshal events", unm)):
+        if not set(union) <= have:
+            raise Infra("reflective phase is vacuous: %s never show constructor(s) %s of r.Choice" % (nm, sorted(set(union) - have)))
+    ck.extra["reflective"] = {"schema_types": len(ast["types"]), "vectors": classes, "trace_events": len(allev), "unmarshal_inputs": whys,
+                              "union_constructors_seen": {"marshal": sorted(mar & set(union)), "unmarshal": sorted(unm & set(union))}}
+    ck.sample({"direction": "reflective S->C", "vector": next(v for v in vecs if v["op"] == "Dec" and v["cls"] == "wrong-byte-order-id")})
+    # ---- canaries C->S: a changed byte, a swapped constructor id, a dropped vector element
+    body = [e for e in allev if e.get("k") != "End"]
+    def pair(i):
+        r = max(j for j in range(i + 1) if body[j]["k"] == "Reset")
+        return copy.deepcopy([body[r], body[i]])
+    i1 = next(i for i, e in enumerate(body) if e["k"] == "Marshal" and e["ty"] == "r.prim")
+    c1 = pair(i1); c1[1]["hex"] = flip_hex(c1[1]["hex"], 1)
+    i2 = next(i for i, e in enumerate(body) if e["k"] == "Marshal" and e["ty"] == "r.Choice" and e["v"]["_"] == "r.alpha")
+    c2 = pair(i2); c2[1]["hex"] = "efbe3412" + c2[1]["hex"][8:]          # r.beta's id in front of r.alpha's fields
+    i3 = next(i for i, e in enumerate(body) if e["k"] == "Marshal" and e["ty"] == "r.list" and len(e["v"]["items"]) >= 1)
+    c3 = pair(i3); c3[1]["v"]["items"] = c3[1]["v"]["items"][1:]
+    return [("reflective changed byte: one byte of a recorded encoding changed", c1, 2),
+            ("reflective swapped id: another alternative's constructor id in a recorded encoding", c2, 2),
+            ("reflective dropped element: one vector element removed from the recorded value", c3, 2)]
 
 
 def replay(ck, path):
@@ -353,6 +483,31 @@ def replay(ck, path):
         return 1 if ck.violations else 0
     ast, astp = make_ast(ck)
     ck.build_vh()
+    if rp["kind"] == "reflective-vector" or rp.get("reflective"):
+        sys.path.insert(0, os.path.join(vlib.VERIF, "tools"))
+        import tl2json
+        rast = tl2json.parse(open(REFL_TL).read())
+        rastp = os.path.join(ck.work, "reflective.json")
+        open(rastp, "w").write(json.dumps(rast, separators=(",", ":")) + "\n")
+        if rp["kind"] == "reflective-vector":
+            vp, out = os.path.join(ck.work, "v.ndjson"), os.path.join(ck.work, "o.ndjson")
+            vlib.write_ndjson(vp, [rp["vector"]])
+            ck.run_vh(["replay", "C10", "-part", "reflective", "-in", vp, "-out", out, rastp])
+            r = vlib.read_ndjson(out)[0]
+            print(json.dumps(r)[:3000])
+            if not r.get("match"):
+                print("VIOLATION property=C10 replay=%s" % path)
+                return 1
+            return 0
+        # a recorded event of the reflective phase: re-judge it (re-recording: bin/check C10)
+        tp = os.path.join(ck.work, "replay.ndjson")
+        vlib.write_ndjson(tp, [{"k": "Reset", "schema": rast, "note": "replay"}, rp["event"], {"k": "End"}])
+        _, rej = ck.validate_segments("TlSem_Trace", "trace/TlSem_Trace.cfg", tp, name="replay")
+        print(json.dumps(rp["event"])[:3000])
+        if rej or rp["kind"] == "panic":
+            print("VIOLATION property=C10 replay=%s" % path)
+            return 1
+        return 0
     if rp["kind"] == "vector":
         vp, out = os.path.join(ck.work, "v.ndjson"), os.path.join(ck.work, "o.ndjson")
         vlib.write_ndjson(vp, [rp["vector"]])
